@@ -6,7 +6,7 @@ CONSTANTS
   MaxDepth = 4
   Alphabet <- AlphaFull
   MaxToks = 3
-  Big = FALSE
+  USize = 1
 SPECIFICATION SpecTexts
 INVARIANT EmitText
 INVARIANT PDAEqualsRD
